@@ -1,5 +1,5 @@
 """C06: CONNECT tunnels relay both directions unchanged (end to end through the real squid)."""
-import concurrent.futures, json, random, socket, threading, time, zlib
+import concurrent.futures, json, os, random, socket, threading, time, zlib
 from vlib import std, lab, common
 
 PID = "C06"
@@ -14,18 +14,22 @@ META = {
             "inserted, reordered, duplicated or altered), with the exact accounting delivered ++ buffered ++ pre-read ++ "
             "unread = sent while the destination is open (C06_tunnel_accounting); when no I/O error or timeout occurs and "
             "side B's peer has not closed, Squid closes B only after every byte A sent before its FIN has been delivered to B "
-            "(C06_tunnel_drain_on_close), and never closes anything before a FIN (C06_no_spontaneous_close); the buffer "
-            "assertions (copyRead's from.len == 0, no overwrite of an unsent buffer) cannot fail (C06_no_assertion_failure). "
+            "(C06_tunnel_drain_on_close); a closed connection is never reopened or written to and a peer that sent FIN adds "
+            "nothing (C06_closed_is_final); the buffer assertions (copyRead's from.len == 0, no overwrite of an unsent "
+            "buffer) cannot fail (C06_no_assertion_failure). The unqualified reading 'every byte one side sends reaches the "
+            "other' is REFUTED for the direction opposite to a half-close (C06_reverse_direction_cut_refuted; known finding "
+            "C06-half-close-closes-both-directions, reproduced against the running squid from corpus/C06/known.jsonl). "
             "Tie: SQUID_TCP_SO_RCVBUF regenerated from the headers; the extracted model is diffed against the real squid "
             "binary between a raw TCP client and a scripted raw TCP server on random binary payloads both ways (all 256 byte "
             "values, 0..140 KB, random segmentation and interleaving, bytes sent in the same segment as the CONNECT head, "
-            "half-closes by either side, also while the other side is still streaming).",
+            "half-closes by either side, also while the other side is still streaming or before it answers).",
     "note": "partial: the theorems are about the transcribed copy loops (PipetunnelModel.v part 2) over an explicit event "
             "list; that Comm delivers read/write/close callbacks as the events assume, and the CONNECT set-up path "
             "(peer selection, 200 response, hand-over of ConnStateData::inBuf), rest on the end-to-end correspondence. The "
             "opposite direction is NOT drained on a half-close: on a FIN from A Squid closes A at once, so bytes B is still "
-            "sending are cut (prefix only; C06_reverse_direction_cut_refuted shows the witness; the property text only "
-            "promises delivery of the closing side's bytes). Delay pools, cache_peer CONNECT and ssl-bump are not modelled. "
+            "sending, or sends after seeing the EOF, are cut (prefix only; witness C06_reverse_direction_cut_refuted; the "
+            "third sentence of the property only promises delivery of the closing side's bytes, the second sentence read "
+            "literally is violated: recorded as a known finding). Delay pools, cache_peer CONNECT and ssl-bump are not modelled. "
             "Trusted: Coq kernel, extraction, gen/gen_pipetunnel.cc, vlib/lab.py, the raw TCP stubs in this file.",
     "technique": "Coq proof (inductive invariant over all event lists of a faithful two-direction state-machine model) + "
                  "end-to-end differential correspondence of the extracted model against the running squid + independent oracle",
@@ -316,7 +320,13 @@ def _one(args):
 
 def run_impl(L, scenarios):
     if "sq" not in _state or not _state["sq"].alive():
-        _state["sq"] = L.squid()
+        if "sq" in _state:
+            try:
+                _state["sq"].stop()
+            except Exception:
+                pass
+        _state["boots"] = _state.get("boots", 0) + 1
+        _state["sq"] = L.squid(name="vc06b%dp%d" % (_state["boots"], os.getpid()))
         _state.setdefault("n", 0)
     sq = _state["sq"]
     jobs = []
@@ -379,8 +389,9 @@ def run(res, tier):
                 "client bytes in the same segment as the CONNECT head (1..70000 bytes, all 256 values, a fake HTTP request); "
                 "0..3 phases in which both sides send 0..5 chunks each (1 byte .. 131072 bytes, random binary, sizes around the "
                 "65535-byte tunnel buffer, CRLFCRLF and fake status lines) with random pauses and then wait for each other; "
-                "the tunnel ends with a half-close by the client or the server, in one third of the cases while the other side "
-                "is still streaming 70-140 KB (that direction is then checked for being an unaltered prefix); observables: "
+                "the tunnel ends with a half-close by the client or the server: one half plain, one third while the other side "
+                "is still streaming 70-140 KB (that direction is then checked for being an unaltered prefix), one sixth with "
+                "the other side answering only after it saw the EOF (known finding: the answer is lost); observables: "
                 "length and Adler-32 of the bytes received at each end, EOF seen at each end; non-trivial = some payload or "
                 "early bytes")
     try:
